@@ -79,14 +79,21 @@ def popLoop : (fuel : Nat) → CS → Int → CS × List CF
         let r := popLoop fuel s' (budget - wireLen (off.toNat, data))
         (r.1, (off.toNat, data) :: r.2)
 
-/-- maybeGetCryptoPacket(EncryptionInitial): the frames of the next Initial packet -/
-def takeFrames (s : PD) : PD × List CF :=
+/-- maybeGetCryptoPacket(EncryptionInitial) with a given frame budget: retransmissions first (and then
+    nothing else), otherwise fresh data from the stream -/
+def takeWith (s : PD) (budget : Int) : PD × List CF :=
   if !s.queue.isEmpty then
-    let r := getFrames (s.queue.length + (s.queue.map (·.2.length)).sum + 1) (cryptoBudget s) s.queue
+    let r := getFrames (s.queue.length + (s.queue.map (·.2.length)).sum + 1) budget s.queue
     ({ s with queue := r.2 }, r.1)
   else
-    let r := popLoop (s.cs.buf.length + 1) s.cs (cryptoBudget s)
+    let r := popLoop (s.cs.buf.length + 1) s.cs budget
     ({ s with cs := r.1 }, r.2)
+
+/-- the frames of the next Initial packet of PackCoalescedPacket -/
+def takeFrames (s : PD) : PD × List CF := takeWith s (cryptoBudget s)
+
+/-- the frame budget of PackPTOProbePacket(Initial): the whole packet, no CryptoLength / padding-reserve cap -/
+def probeBudget (s : PD) : Int := s.maxSize - 16 - s.hdrLen
 
 inductive PackOut where
   | none
@@ -107,6 +114,19 @@ def finish (s : PD) (frames : List CF) (d : Draws) (perm : List Nat) : PD × Pac
 /-- one PackCoalescedPacket call -/
 def pack (s : PD) (d : Draws) (perm : List Nat) : PD × PackOut :=
   finish (takeFrames s).1 (takeFrames s).2 d perm
+
+/-- PackPTOProbePacket(EncryptionInitial, addPingIfEmpty = true): when neither the stream nor the queue
+    holds anything the packet is a PING as far as the packer is concerned — MarshalInitialPacketPayload
+    sees no CRYPTO frame and builds the payload from an empty share; nothing is registered -/
+def probe (s : PD) (d : Draws) (perm : List Nat) : PD × PackOut :=
+  let t := takeWith s (probeBudget s)
+  if t.2.isEmpty && !(s.queue.isEmpty && s.cs.buf.isEmpty) then
+    ({ t.1 with sent := t.1.sent ++ [none] }, .none)
+  else
+    match marshalInitial t.1.fb t.1.idx false t.2 d perm with
+    | .ok (p, idx') => ({ t.1 with idx := idx', sent := t.1.sent ++ [some t.2] }, .pkt p t.2)
+    | .err e => ({ t.1 with sent := t.1.sent ++ [none] }, .err e)
+    | _ => ({ t.1 with sent := t.1.sent ++ [none] }, .panic)
 
 /-- the `k`-th packet is declared lost: OnLost → retransmissionQueue.addInitial for every registered frame -/
 def lose (s : PD) (k : Nat) : PD × Bool :=
